@@ -76,6 +76,22 @@ def main() -> int:
     except Exception:  # noqa: BLE001
         broken.append("harness error: " + traceback.format_exc()[-1500:])
 
+    # cross-check of the extraction: a sample of the cases of this run is evaluated again inside Coq (vm_compute)
+    xcheck = {"cases": 0, "agree": 0}
+    if status["driver_ok"] and vlib.SAMPLE:
+        try:
+            got = vlib.coq_eval([c for c, _ in vlib.SAMPLE], prop)
+            if got is None or len(got) != len(vlib.SAMPLE):
+                broken.append("in-Coq evaluation of the sampled cases failed (coqc error or unreadable output)")
+            else:
+                xcheck["cases"] = len(got)
+                xcheck["agree"] = sum(1 for (c, o), g in zip(vlib.SAMPLE, got) if o == g)
+                if xcheck["agree"] != xcheck["cases"]:
+                    k = next(i for i, ((c, o), g) in enumerate(zip(vlib.SAMPLE, got)) if o != g)
+                    broken.append(f"the extracted program and vm_compute disagree on a sampled case: {vlib.SAMPLE[k][0][:200]}")
+        except Exception:  # noqa: BLE001
+            broken.append("harness error in the extraction cross-check: " + traceback.format_exc()[-600:])
+
     known = [k for k in load_known() if k.get("property") == prop and k.get("status", "known") == "known"]
     known_by_id = {k["id"]: k for k in known}
 
@@ -136,6 +152,7 @@ def main() -> int:
             "samples": result["samples"][:8] or ["<none>"],
             "disagreements": len(result["disagreements"]),
             "known_findings_hit": known_hits,
+            "extraction_cross_check_in_coq": xcheck,
             "stats": result["stats"],
             "notes": result["notes"],
             "broken": broken,
